@@ -302,7 +302,15 @@ def rule_carried(ctx, only=None):
         try:
             fns[name] = P.method(D, name)
         except AnalysisError:
-            ctx.violated('R3', D, 'DimArray.' + name, 'operation vanished')
+            m = P.lookup(P.cls(D), name)
+            r = P.resolve_member(m) if m is not None else None
+            if m is None:
+                ctx.violated('R3', D, 'DimArray.' + name, 'operation vanished')
+            elif r is not None and r[0] == 'numpydesc':
+                # installed like sum / mean / std: a _NumpyDesc descriptor, i.e. apply_along_axis(self, <name>, ...) - whose result is checked below
+                ctx.holds('R3', '%s: _NumpyDesc descriptor -> apply_along_axis (carries **obj.attrs)' % name)
+            else:
+                ctx.undecide('R3', 'DimArray.%s is no longer a plain function (installed in a form the rule does not follow)' % name)
     if only is None:
         fns['apply_along_axis'] = ctx.fn('dimarray.core.transform.apply_along_axis')
     for name, fi in sorted(fns.items()):
